@@ -156,6 +156,9 @@ fn script() -> Vec<Step> {
         (0, json!({"cGet": {"transactionId": 7, "key": "c1"}}), 7, Exp::One(&["cState"], None)),
         (0, json!({"set": {"transactionId": 8, "key": "c1", "value": 3}}), 8, Exp::One(c, Some(17))),
         (0, json!({"set": {"transactionId": 9, "key": "$SYS/x", "value": 1}}), 9, Exp::One(c, Some(9))),
+        // protected keys at the edge of the session's own writable subtree: refused and answered, the session goes on
+        (0, json!({"set": {"transactionId": 901, "key": "$SYS/clients/00000000-0000-0000-0000-00000000000a", "value": 1}}), 901, Exp::One(c, Some(9))),
+        (0, json!({"delete": {"transactionId": 902, "key": "$SYS/clients"}}), 902, Exp::One(&["state", "err"], Some(9))),
         (0, json!({"set": {"transactionId": 10, "key": "a/?/b", "value": 1}}), 10, Exp::One(c, Some(0))),
         (0, json!({"set": {"transactionId": 11, "key": "a/#", "value": 1}}), 11, Exp::One(c, Some(1))),
         // requests the core refuses are answered with an Err and the session goes on: patterns with `#` before the end below an EXISTING prefix
